@@ -48,6 +48,11 @@ pub fn pool() -> Vec<MV> {
         s("z"),
         s("😀"),
         s("\u{ffff}"),
+        s("\u{ff21}"),
+        s("\u{e000}"),
+        s("\u{10000}"),
+        s("a\u{fffd}"),
+        s("a😀"),
         s("1"),
         s("true"),
         s("null"),
